@@ -2,5 +2,6 @@ package c14
 
 // Registry lists the harness entry points of this package for native replay.
 var Registry = map[string]func([]int64){
-	"HarnessRoundTrip": func(a []int64) { HarnessRoundTrip(int(a[0]), int(a[1])) },
+	"HarnessRoundTrip":  func(a []int64) { HarnessRoundTrip(int(a[0]), int(a[1])) },
+	"HarnessLargeLists": func(a []int64) { HarnessLargeLists(int(a[0]), int(a[1])) },
 }
